@@ -89,6 +89,7 @@ impl<'a, TPrinter: Printer> FileExecutor<'a, TPrinter> {
                     break;
                 }
 
+                let line = line.map_err(|err| ExecutionError::FailReadFile(format!("{}", err)));
                 if let Ok(line) = line {
                     self.statistics.total_lines += 1;
                     self.statistics.ingested_bytes += line.len() + 1; // +1 for line ending
@@ -105,7 +106,7 @@ impl<'a, TPrinter: Printer> FileExecutor<'a, TPrinter> {
                         break 'readers;
                     }
                 } else {
-                    break;
+                    return line.map(|_| ());
                 }
             }
         }
